@@ -7,6 +7,8 @@ from props.fam_l2 import l2_module
 def build(tier, seed):
     mods = [l1_loader_module("C07", tier), l2_module("C07", tier)]
     mods.append(l3_module("C07", tier))
+    from props.fam_litenum import litenum_module
+    mods.append(litenum_module("C07", tier))
     from props.C15 import build as build_c15
     for m15 in build_c15(tier, seed).modules:
         if m15.key == "c15_literal":
